@@ -75,6 +75,29 @@ func CheckTarget(dir, name string, src []byte) (*Target, error) {
 	return &Target{Fset: fset, File: f, Info: info, Pkg: pkg, Src: src, Path: path}, nil
 }
 
+// CheckTargetPkg is CheckTarget with an explicit package path (what RunContext.Pkg.Path() returns).
+func CheckTargetPkg(dir, name string, src []byte, pkgPath string) (*Target, error) {
+	path := filepath.Join(dir, name)
+	if err := os.MkdirAll(filepath.Dir(path), 0o755); err != nil {
+		return nil, err
+	}
+	if err := os.WriteFile(path, src, 0o644); err != nil {
+		return nil, err
+	}
+	fset := token.NewFileSet()
+	f, err := parser.ParseFile(fset, path, src, parser.ParseComments)
+	if err != nil {
+		return nil, err
+	}
+	info := NewInfo()
+	conf := types.Config{Importer: importer.ForCompiler(fset, "source", nil), Error: func(error) {}}
+	pkg, err := conf.Check(pkgPath, fset, []*ast.File{f}, info)
+	if err != nil {
+		return nil, fmt.Errorf("typecheck %s: %v", name, err)
+	}
+	return &Target{Fset: fset, File: f, Info: info, Pkg: pkg, Src: src, Path: path}, nil
+}
+
 // LoadEngine loads rule sources (name -> text) into a fresh engine.
 func LoadEngine(fset *token.FileSet, rules map[string]string, order []string) (*ruleguard.Engine, error) {
 	e := ruleguard.NewEngine()
